@@ -1,7 +1,7 @@
 #!/bin/bash
 # tools/seedcheck.sh <ID> <n> [<PROP> ...]   confirm a seeded change and run checks against it
 # 1. demo fails with the change, 2. pinned suite passes with the change, 3. demo passes without it,
-# 4. the given checks (default: <ID>) are run against /repo with the change applied, then /repo is restored.
+# 4. the given checks (default: <ID>) are run against a scratch copy of /repo with the change applied.
 export GOFLAGS=-mod=mod GOPROXY=off GOSUMDB=off GOTOOLCHAIN=local
 id=$1; n=$2; shift 2; props=${@:-$id}
 wt=/tmp/seed-$id; out=/tmp/seed-$id-out
@@ -27,10 +27,13 @@ rm -f $dir/$dest
 git checkout -q -- . ; git clean -fdq
 fi
 [ -n "$NOREPO" ] && exit 0
-cd /repo && git apply $out/change$n.diff || { echo "APPLY TO /repo FAILED"; exit 2; }
+# the checks run against a scratch copy of /repo with the change applied (never /repo itself),
+# and write their evidence and replays to a scratch directory
+scratch=$(mktemp -d /tmp/seedcheck.XXXXXX)
+trap 'rm -rf "$scratch"' EXIT
+mkdir -p $scratch/sarama && rsync -a --exclude .git /repo/ $scratch/sarama/
+(cd $scratch/sarama && patch -p1 -s --no-backup-if-mismatch < $out/change$n.diff) || { echo "APPLY TO COPY FAILED"; exit 2; }
 for p in $props; do
   echo "--- ./check $p quick against the change"
-  (cd /verif && ./check $p quick 2>&1 | grep -v KNOWN-FINDING | cut -c1-420 | tail -5)
+  (cd /verif && VERIF_REPO=$scratch/sarama VERIF_OUT=$scratch/out ./check $p quick 2>&1 | grep -v KNOWN-FINDING | cut -c1-420 | tail -5)
 done
-git -C /repo checkout -q -- . 
-git -C /repo status --short | head -3
